@@ -112,7 +112,7 @@ def build_cases(sc, tier, rng):
     for n in (1000, 100000):
         cases.append(H.Case(g.dumps(g.base_input("claude", "git push " + "a " * n, wd, hook_event_name="PostToolUse")), label="post:size", user_cfg=u))
         cases.append(H.Case(g.dumps(g.base_input("claude", "(" * n + "git push" + ")" * n, wd, hook_event_name="PostToolUse")), label="post:nest", user_cfg=u))
-    # the known finding's witness, on every run: PostToolUse + unreadable configuration
+    # PostToolUse + unreadable configuration (the former finding C19-config-error-decision-on-post, fixed in 007d10b)
     for shape in g.SHAPES:
         cases.append(H.Case(g.dumps(g.base_input(shape, "git push", wd, hook_event_name="PostToolUse")), label="post:config-error", user_cfg=u, env_cfg="/proc/self/mem"))
     cases.append(H.Case(g.dumps({"tool_name": "mcp__a__b", "tool_input": {}, "hook_event_name": "PostToolUse"}), label="post:config-error", user_cfg=u, env_cfg="/proc/self/mem"))
